@@ -710,14 +710,40 @@ impl<'a> Body for ReplaceBody<'a> {
         if o.fail.is_some() {
             return o;
         }
-        // a search error must come back as Err, not as a panic (a panic is caught by the driver)
+        // a search error must come back as Err (both paths), not as a panic and not swallowed
         if let Some(lb) = self.limited {
-            let r = with_text(lb, t, |s| {
-                let a = lb.regex.try_replacen(s, 0, NoExpand("x")).map(|c| c.len()).map_err(|e| err_name(&e));
-                let b = lb.regex.try_replacen(s, 0, "<$0>").map(|c| c.len()).map_err(|e| err_name(&e));
-                (a, b)
+            let lim = Some(lb.opts.0.backtrack_limit);
+            let (lfi, a, b, c) = with_text(lb, t, |s| {
+                let (lfi, _) = real_find_iter(&lb.regex, s);
+                let canon = |r: crate::Result<std::borrow::Cow<str>>| match r {
+                    Ok(c) => Ok(std::format!("{}:{}", if matches!(c, std::borrow::Cow::Borrowed(_)) { "B" } else { "O" }, hex(&c))),
+                    Err(e) => Err(err_name(&e)),
+                };
+                let a = canon(lb.regex.try_replacen(s, 0, NoExpand("x")));
+                let b = canon(lb.regex.try_replacen(s, 0, "[$1]"));
+                let c = canon(lb.regex.try_replacen(s, 0, |_: &Captures| "x".to_string()));
+                (lfi, a, b, c)
             });
-            o.items.push(std::format!("limited={:?}", r));
+            o.items.push(std::format!("limited={} {} {} {}", canon_seq(&lfi), a.is_ok(), b.is_ok(), c.is_ok()));
+            let any_err = lfi.iter().any(|x| matches!(x, It::E(_)));
+            for (k, r) in [(0usize, &a), (5usize, &b), (2usize, &c)].iter() {
+                if r.is_err() != any_err {
+                    o.fail = Some(Fail {
+                        what: std::format!(
+                            "with backtrack limit {:?}: find_iter {} an error but try_replacen (replace all, replacer {}) returns {:?}",
+                            lim, if any_err { "hits" } else { "does not hit" }, ops[*k], r
+                        ),
+                        op: ops[*k].to_string(),
+                        pattern: lb.src.clone(),
+                        casei: false,
+                        limit: lim,
+                        arg: 0,
+                        observed: match r { Ok(s) => s.clone(), Err(e) => std::format!("E:{}", e) },
+                        expected: if any_err { "Err".to_string() } else { "Ok".to_string() },
+                    });
+                    break;
+                }
+            }
         }
         o
     }
@@ -978,7 +1004,28 @@ pub fn process_wrappers(cfg: &RunCfg, item: &Item, rep: &mut PatReport) {
             // concrete facts about the pattern
             let ngroups = 1 + count_groups(&tree.expr);
             let cl = b.regex.captures_len();
-            let names: Vec<Option<String>> = b.regex.capture_names().map(|n| n.map(|s| s.to_string())).collect();
+            let names_r = std::panic::catch_unwind(std::panic::AssertUnwindSafe(|| {
+                b.regex.capture_names().map(|n| n.map(|s| s.to_string())).collect::<Vec<Option<String>>>()
+            }));
+            let names: Vec<Option<String>> = match names_r {
+                Ok(n) => n,
+                Err(_) => {
+                    rep.candidates.push(crate::props::Cand {
+                        prop: cfg.prop.clone(),
+                        what: "capture_names() panics".to_string(),
+                        op: "names_meta".to_string(),
+                        pattern: item.pattern.clone(),
+                        casei: false,
+                        limit: None,
+                        text: Vec::new(),
+                        pos: 0,
+                        arg: 0,
+                        observed: "PANIC".to_string(),
+                        expected: "one entry per group".to_string(),
+                    });
+                    return;
+                }
+            };
             let mut named: Vec<(String, usize)> = tree.named_groups.iter().map(|(k, v)| (k.clone(), *v)).collect();
             named.sort();
             let mut bad: Option<String> = None;
